@@ -90,8 +90,12 @@ class PythonScriptBuilder:
             self.command.output(context, fpnull)
         scriptpath = job.jobpath / ("%s.py" % job.name)
 
+        # The script is written aside and moved into place: a job process that
+        # is starting (launched by another scheduler) never reads a partial file
+        tmppath = scriptpath.with_name(scriptpath.name + ".tmp")
+
         logger.debug("Writing script %s", scriptpath)
-        with scriptpath.open("wt") as out:
+        with tmppath.open("wt") as out:
             out.write("#!{}\n".format(self.pythonpath))
             out.write("# Experimaestro generated task\n\n")
             out.write(
@@ -132,5 +136,6 @@ class PythonScriptBuilder:
             )
 
         # Set the file as executable
-        connector.setExecutable(scriptpath, True)
+        connector.setExecutable(tmppath, True)
+        tmppath.replace(scriptpath)
         return scriptpath
